@@ -11,13 +11,13 @@ from ref import rfc9171, bpsec_cose
 ID = 'C12'
 LEVEL = 'exploration'
 RULE = ('per case 2-6 bundles for a local endpoint, each either clean (no security / valid BIB / valid BCB / valid BIB+BCB) or carrying one '
-        'malformation built by ref/bpsec_cose.py: wrong key, unknown kid, altered target, unknown context id, target number absent, duplicate '
+        'malformation built by ref/bpsec_cose.py: wrong key, unknown kid, altered target (also with the original content attached to the COSE message), unknown context id, target number absent, duplicate '
         'parameter ids, duplicate result ids, result count 0 or 2, undecodable COSE message, security-block data that is not a CBOR sequence, '
         'two BIBs of which only the last is bad, good BIB + bad BCB and vice versa, random bit flips in the security block with CRC fix-up; '
         'acceptance on/off, key store contents and deletion-report request drawn per case. A clean bundle always follows a bad one. '
         'Non-trivial: at least one malformed bundle; distinct = digest of the case descriptors.')
 COMPONENTS = bc.COMPONENTS
-PROBES = tuple('bad.' + name for name in ('wrong-key', 'unknown-kid', 'altered-target', 'unknown-context', 'target-absent', 'dup-param', 'dup-result', 'zero-results',
+PROBES = tuple('bad.' + name for name in ('wrong-key', 'unknown-kid', 'altered-target', 'altered-target-attached-original', 'unknown-context', 'target-absent', 'dup-param', 'dup-result', 'zero-results',
                                            'two-results', 'cose-garbage', 'asb-not-cbor', 'last-of-two-bibs', 'good-bib-bad-bcb', 'bad-bib-good-bcb', 'bitflip')) + (
     'good.none', 'good.bib', 'good.bcb', 'good.bib+bcb', 'accept.on', 'accept.off', 'probe.recv_exception', 'rpt.security_reason')
 ASSUMPTIONS = ['an exception leaving recv_bundle() is a probe; it counts only through its consequence (delivery)',
@@ -25,7 +25,7 @@ ASSUMPTIONS = ['an exception leaving recv_bundle() is a probe; it counts only th
 CHUNK = 25
 BUDGET = {'quick': 30, 'thorough': 400}
 
-BAD = ('wrong-key', 'unknown-kid', 'altered-target', 'unknown-context', 'target-absent', 'dup-param', 'dup-result', 'zero-results', 'two-results',
+BAD = ('wrong-key', 'unknown-kid', 'altered-target', 'altered-target-attached-original', 'unknown-context', 'target-absent', 'dup-param', 'dup-result', 'zero-results', 'two-results',
        'cose-garbage', 'asb-not-cbor', 'last-of-two-bibs', 'good-bib-bad-bcb', 'bad-bib-good-bcb', 'bitflip')
 GOOD = ('none', 'bib', 'bcb', 'bib+bcb')
 
@@ -33,10 +33,15 @@ GOOD = ('none', 'bib', 'bcb', 'bib+bcb')
 def gen(ch, tier):
     items = []
     for ix in range(1 + ch.pick('nitems', 3)):
-        items.append(dict(kind='bad', what=ch.choice('bad', BAD), sec=ch.choice('badsec', ('bib', 'bib', 'bcb')), plen=ch.choice('plen', (1, 9, 40)),
+        items.append(dict(kind='bad', what=ch.choice('bad', BAD), sec=ch.choice('badsec', ('bib', 'bib', 'bcb')), plen=ch.choice('plen', (1, 9, 40, 0)),
                           bit=ch.pick('bit', 1 << 16), dreport=ch.coin('dreport', 1, 2), crc=ch.choice('crc', (0, 1, 2))))
-        items.append(dict(kind='good', what=ch.choice('good', GOOD), plen=ch.choice('plen', (1, 9, 40)), dreport=False, crc=ch.choice('crc', (0, 1, 2))))
+        items.append(dict(kind='good', what=ch.choice('good', GOOD), plen=ch.choice('plen', (1, 9, 40, 0)), dreport=False, crc=ch.choice('crc', (0, 1, 2))))
     return dict(scenario='bpsec_malformed', items=items, accept=ch.coin('accept', 1, 2))
+
+
+def _altered(data):
+    ''' The same octets with the last bit flipped (one more octet when there is none). '''
+    return data[:-1] + bytes([data[-1] ^ 1]) if data else b'\x01'
 
 
 def _asb_edit(blk, func):
@@ -95,7 +100,18 @@ def build(item, index):
         else:
             sec = good_bib(payload, 2, kid=b'nobody')
     elif what == 'altered-target':
-        blocks_after = [ext, dict(tgt, btsd=tgt['btsd'][:-1] + bytes([tgt['btsd'][-1] ^ 1]))]
+        blocks_after = [ext, dict(tgt, btsd=_altered(tgt['btsd']))]
+    elif what == 'altered-target-attached-original':
+        # the target is altered while the COSE message carries the original content as an attached payload instead of nil
+        original = tgt['btsd']
+        blocks_after = [ext, dict(tgt, btsd=_altered(tgt['btsd']))]
+
+        def attach(new):
+            (rid, val) = new['results'][0][0]
+            msg = cbor2.loads(val)
+            msg[2] = original
+            new['results'] = [[(rid, cbor2.dumps(msg))]]
+        sec = _asb_edit(sec, attach)
     elif what == 'unknown-context':
         sec = _asb_edit(sec, lambda new: new.update(context_id=99))
     elif what == 'target-absent':
